@@ -71,8 +71,9 @@ def rule_a(chk, f):
                 n_idx += 1
                 if src(w.value) == dv and isinstance(idx, ast.Constant) and isinstance(idx.value, int):
                     needed = str(idx.value + 1)
-                    ok_edges = lambda e, needed=needed: any(_len_fact_edge(dv, str(k))(e) for k in range(int(needed), int(needed) + 8))  # noqa: E731
-                    q = pat.guarded_by(g, n, ok_edges, start=head)
+                    ok_edges = lambda e, needed=needed: any(_len_fact_edge(dv, str(k))(e) for k in range(int(needed), int(needed) + 8)) or (  # noqa: E731
+                        needed == '1' and e.src.kind == 'test' and e.kind == 'T' and src(e.src.ast) == dv)
+                    q = pat.guarded_by(g, n, ok_edges)
                     what = f'len({dv}) ≥ {needed}'
                 elif src(w.value) == dv:
                     # data[offset] inside the extended-length loop: len(data) >= offset + payload_bytes tested before the loop
